@@ -1,5 +1,7 @@
 import LyModel.Diff.K13Fwd
 import LyModel.Diff.LemmasLit
+import LyModel.Diff.LemmasMergeShape
+import LyModel.Diff.MergeSafe
 import LyModel.Props.C13Merge
 /-!
 # C13: `lyd_diff_merge_all` at tree level — the recursion of `lyd_diff_merge_r` through sibling lists and inner nodes
@@ -173,5 +175,527 @@ theorem tinv_drop {S : Schema} (K : KeyOrderOn S P) {cur : Option Op} {t : DNode
       · exact hall x hx
     · rw [← look_congr K (goodT_goodL hgY') htd hq htq, ← look_congr K (goodT_goodL hgY') hsd htd hst, hval,
         look_congr K (goodT_goodL hgL) htd hq htq]
+
+/-! ### the cells of the table for two leaf / leaf-list nodes that meet -/
+
+open LyModel.Props.C13 in
+/-- what an exact leaf / leaf-list node with operation `op` makes of the instance (normalised) -/
+def tEff (c : DNode) (op : Op) : Option DNode := if op = .delete then none else some (normN c)
+
+theorem termEff_exact {S : Schema} {c : DNode} {inh : Option Op} {op : Op} {e e0 : Option DNode} (ht : c.isTerm = true)
+    (hex : exactE S P inh e c = true) (hop : effOp c inh = some op)
+    (hge : ∀ x, e = some x → goodN S P x = true ∧ x.sid = c.sid) (he0 : e0.map normN = e.map normN) :
+    ∃ e1, termEff S inh c e0 = some e1 ∧ e1.map normN = tEff c op := by
+  obtain ⟨hd, _, _⟩ := exactE_base hex
+  have hx0 : ∀ x, e = some x → ∃ x0, e0 = some x0 ∧ x0.isTerm = true ∧ x0.sid = c.sid ∧ x0.val = x.val := by
+    intro x hx
+    subst hx
+    cases e0 with
+    | none => simp at he0
+    | some x0 =>
+      simp only [Option.map_some, Option.some.injEq] at he0
+      obtain ⟨hgx, hxs⟩ := hge x rfl
+      refine ⟨x0, rfl, ?_, ?_, ?_⟩
+      · rw [← isTerm_normN, he0, isTerm_normN, isTerm_of_good_sid hgx hxs hd]; exact ht
+      · rw [← sid_normN, he0, sid_normN]; exact hxs
+      · rw [← val_normN, he0, val_normN]
+  cases op with
+  | create =>
+    obtain ⟨rfl, _⟩ := exactE_create hex hop
+    cases e0 with
+    | some _ => simp at he0
+    | none => exact ⟨some (mkCreated c), by simp [termEff, hop], by simp [tEff, normN_mkCreated]⟩
+  | delete =>
+    obtain ⟨x, rfl, _⟩ := exactE_delete hex hop
+    obtain ⟨x0, rfl, _⟩ := hx0 x rfl
+    exact ⟨none, by simp [termEff, hop], by simp [tEff]⟩
+  | replace =>
+    obtain ⟨_, x, rfl, hleaf, _, _, hv⟩ := exactE_replace hex hop
+    obtain ⟨x0, rfl, hxt, hxs, hxv⟩ := hx0 x rfl
+    have hne : (x0.val == c.val) = false := by rw [hxv]; simpa using fun h => hv h.symm
+    refine ⟨some ((x0.setVal c.val).setFlags c.flags), by simp [termEff, hop, hleaf, hne], ?_⟩
+    cases x0 with
+    | inner => simp [DNode.isTerm] at hxt
+    | term s' f' m' v' =>
+      cases c with
+      | inner => simp [DNode.isTerm] at ht
+      | term s f m v =>
+        simp only [DNode.sid] at hxs
+        simp [tEff, DNode.setVal, DNode.setFlags, normN, DNode.flags, DNode.val, hxs]
+  | none =>
+    obtain ⟨x, rfl, hv, _⟩ := exactE_none_term hex hop ht
+    obtain ⟨x0, rfl, hxt, hxs, hxv⟩ := hx0 x rfl
+    refine ⟨some (x0.setDflt c.flags.dflt), by simp [termEff, hop], ?_⟩
+    cases x0 with
+    | inner => simp [DNode.isTerm] at hxt
+    | term s' f' m' v' =>
+      cases c with
+      | inner => simp [DNode.isTerm] at ht
+      | term s f m v =>
+        simp only [DNode.sid, DNode.val] at hxs hxv hv
+        simp [tEff, DNode.setDflt, DNode.setFlags, normN, DNode.flags, hxs, hxv, hv]
+
+theorem lit_cases {m : List Meta} (hl : litMeta m = true) :
+    m = [] ∨ m = [("operation", bs "create")] ∨ m = [("operation", bs "delete")] ∨
+      (∃ d, m = [("operation", bs "none"), ("orig-default", d)]) ∨
+      ∃ d ov, m = [("operation", bs "replace"), ("orig-default", d), ("orig-value", ov)] := by
+  match m, hl with
+  | [], _ => exact Or.inl rfl
+  | [(a, x)], hl =>
+    simp only [litMeta, Bool.and_eq_true, beq_iff_eq, Bool.or_eq_true] at hl
+    obtain ⟨rfl, h⟩ := hl
+    rcases h with rfl | rfl
+    · exact Or.inr (Or.inl rfl)
+    · exact Or.inr (Or.inr (Or.inl rfl))
+  | [(a, x), (b, y)], hl =>
+    simp only [litMeta, Bool.and_eq_true, beq_iff_eq] at hl
+    obtain ⟨⟨rfl, rfl⟩, rfl⟩ := hl
+    exact Or.inr (Or.inr (Or.inr (Or.inl ⟨y, rfl⟩)))
+  | [(a, x), (b, y), (c, z)], hl =>
+    simp only [litMeta, Bool.and_eq_true, beq_iff_eq] at hl
+    obtain ⟨⟨⟨rfl, rfl⟩, rfl⟩, rfl⟩ := hl
+    exact Or.inr (Or.inr (Or.inr (Or.inr ⟨y, z, rfl⟩)))
+  | _ :: _ :: _ :: _ :: _, hl => simp [litMeta] at hl
+
+/-- the metadata of a literal leaf node with an operation of its own -/
+theorem form_of_lit {s : Nat} {f : Flags} {m : List Meta} {v : Bytes} (hl : litMeta m = true) {op : Op}
+    (ho : ownOp (.term s f m v) = some op) :
+    match op with
+    | .create => m = [("operation", bs "create")]
+    | .delete => m = [("operation", bs "delete")]
+    | .none => ∃ d, m = [("operation", bs "none"), ("orig-default", d)]
+    | .replace => ∃ d ov, m = [("operation", bs "replace"), ("orig-default", d), ("orig-value", ov)] := by
+  rcases lit_cases hl with rfl | rfl | rfl | ⟨d, rfl⟩ | ⟨d, ov, rfl⟩ <;>
+    simp [ownOp, getMeta, DNode.metas, ofBytes_create, ofBytes_delete, ofBytes_none, ofBytes_replace] at ho <;> subst ho <;> simp
+
+/-- under an inherited operation `none` (or none at all) an exact literal leaf node has an operation of its own -/
+theorem own_of_exact_lit {S : Schema} {c : DNode} {inh : Option Op} {e : Option DNode} (hinh : inh = none ∨ inh = some .none)
+    (ht : c.isTerm = true) (hex : exactE S P inh e c = true) (hl : litN c = true) : ∃ op, ownOp c = some op := by
+  cases ho : ownOp c with
+  | some op => exact ⟨op, rfl⟩
+  | none =>
+    exfalso
+    cases c with
+    | inner => simp [DNode.isTerm] at ht
+    | term s f m v =>
+      have hop : effOp (.term s f m v) inh = inh := by simp [effOp, ho]
+      rcases hinh with rfl | rfl
+      · simp only [exactE, hop, Bool.and_eq_true] at hex
+        cases e <;> simp at hex
+      · obtain ⟨x, rfl, _, hm⟩ := exactE_none_term hex hop rfl
+        simp only [litN] at hl
+        rcases lit_cases hl with rfl | rfl | rfl | ⟨d, rfl⟩ | ⟨d, ov, rfl⟩ <;>
+          simp [ownOp, getMeta, DNode.metas, ofBytes_create, ofBytes_delete, ofBytes_none, ofBytes_replace] at ho hm
+
+theorem effOp_own' {d : DNode} {op : Op} (h : ownOp d = some op) (a : Option Op) : effOp d a = some op := by simp [effOp, h]
+
+theorem termEff_own {S : Schema} {d : DNode} {op : Op} (h : ownOp d = some op) (a b : Option Op) (e : Option DNode) :
+    termEff S a d e = termEff S b d e := by
+  simp only [termEff, effOp_own' h]
+
+theorem ownOp_of_effOp_none {d : DNode} {op : Op} (h : effOp d none = some op) : ownOp d = some op := by
+  cases ho : ownOp d with
+  | none => simp [effOp, ho] at h
+  | some o => simpa [effOp, ho] using h
+
+/-- from a cell equation (for every version of the instance) to the node of the cell: it is dropped and the two diff nodes
+together leave the instance alone, or it is kept and acts like the two one after the other -/
+theorem cell_concl {S : Schema} (K : KeyOrderOn S P) {o : MergeOpts} {cur : Option Op} {sop cop : Op} {t src : DNode}
+    {e e2 : Option DNode} (x0 : Option DNode) (hx0 : x0.map normN = e) (htd : Dom S P t) (htt : t.isTerm = true)
+    (htk : S.isKey t.sid = false) (hss : src.sid = t.sid)
+    (hkv : S.isKind t.sid .leaf = true ∨ (sop ≠ .replace ∧ cop ≠ .replace))
+    (h : ∀ e0 : Option DNode, e0.map normN = e → cellEff S o sop t cop src e0 = some e2) :
+    ∃ m, mergeCell S o sop t cop src = .ok (m, false) ∧ Dom S P m ∧ m.isTerm = true ∧ m.sid = t.sid ∧
+      (∀ x, matchP S m x = matchP S t x) ∧ (∃ op, ownOp m = some op) ∧
+      (((isRedundant S none m).2 = true ∧ e2 = e) ∨ ((isRedundant S none m).2 = false ∧ Acts S P fx cur m e e2)) := by
+  have huo : S.isUserOrd src.sid = false := by rw [hss]; exact htd.nuo
+  have h0 := h x0 hx0
+  unfold cellEff at h0
+  cases hm : mergeCell S o sop t cop src with
+  | error err => simp [hm] at h0
+  | ok p =>
+    obtain ⟨m, mv⟩ := p
+    obtain ⟨⟨hs1, hs2⟩, rfl⟩ := mergeCell_sameS huo hm
+    have hmt : m.isTerm = true := hs2.trans htt
+    have hmuo : S.isUserOrd m.sid = false := by rw [hs1]; exact htd.nuo
+    have hfst : (isRedundant S none m).1 = m := isRedundant_fst S none m hmuo
+    have hmval : S.isKind t.sid .leaf = false → m.val = t.val := by
+      intro hk
+      rcases hkv with hl | ⟨h1, h2⟩
+      · rw [hl] at hk; cases hk
+      · exact mergeCell_val huo (by rw [hss]; exact hk) h1 h2 hm
+    have hmatch : ∀ x, matchP S m x = matchP S t x := by
+      intro x
+      cases hk : S.isKind t.sid .leaf
+      · exact matchP_of_same_data htd.ndi hs1 (hmval hk) (by rw [kids_term hmt, kids_term htt]) x
+      · rw [matchP_leaf_eq (by rw [hs1]; exact hk), matchP_leaf_eq hk, hs1]
+    have hmd : Dom S P m := by
+      refine ⟨hmuo, by rw [hs1]; exact htd.ndi, by rw [hmt, hs1, ← htd.typed, htt], ?_⟩
+      cases hk : S.isKind t.sid .leaf
+      · rw [K.pinv.pcongr (x := m) (y := t) hs1 (hmval hk) (by rw [kids_term hmt, kids_term htt])]
+        exact htd.sat
+      · exact K.pinv.punsorted (by rw [hs1]; exact isSorted_of_leaf hk)
+    simp only [hm] at h0
+    have hown : ∃ op, ownOp m = some op := by
+      cases ho : effOp m none with
+      | some op => exact ⟨op, ownOp_of_effOp_none ho⟩
+      | none =>
+        exfalso
+        have hr : isRedundant S none m = (m, false) := by unfold isRedundant; simp [ho]
+        simp only [hr, Bool.false_eq_true, ↓reduceIte, termEff, ho] at h0
+        simp at h0
+    refine ⟨m, rfl, hmd, hmt, hs1, hmatch, hown, ?_⟩
+    obtain ⟨opm, hopm⟩ := hown
+    cases hr2 : (isRedundant S none m).2
+    · refine Or.inr ⟨rfl, ?_⟩
+      apply acts_of_termEff K hmd hmt (by rw [hs1]; exact htk)
+      intro e1 he1
+      have h1 := h e1 he1
+      unfold cellEff at h1
+      simp only [hm, hr2, Bool.false_eq_true, ↓reduceIte, hfst] at h1
+      rw [termEff_own hopm cur none]
+      cases hte : termEff S none m e1 with
+      | none => simp [hte] at h1
+      | some e3 => exact ⟨e3, rfl, by simpa [hte] using h1⟩
+    · refine Or.inl ⟨rfl, ?_⟩
+      simp only [hr2, ↓reduceIte, Option.some.injEq] at h0
+      rw [← h0, hx0]
+
+section dispatch
+open LyModel.Props.C13
+
+theorem norm_term_form {x x' : DNode} (hxt : x.isTerm = true) (h : normN x' = normN x) :
+    ∃ fx mx, x' = .term x.sid fx mx x.val ∧ fx.dflt = x.flags.dflt := by
+  cases x with
+  | inner => simp [DNode.isTerm] at hxt
+  | term s f m v =>
+    cases x' with
+    | inner => simp [normN] at h
+    | term s' f' m' v' =>
+      simp only [normN, DNode.term.injEq] at h
+      obtain ⟨rfl, h2, _, rfl⟩ := h
+      refine ⟨f', m', rfl, ?_⟩
+      have := congrArg Flags.dflt h2
+      simpa [DNode.flags] using this
+
+/-- versions of the instance an exact leaf node is exact for -/
+theorem e0_forms {S : Schema} {s : Nat} {x0 e0 : Option DNode} (hS : S.isTerm s = true)
+    (hgx : ∀ x, x0 = some x → goodN S P x = true ∧ x.sid = s) (he0 : e0.map normN = x0.map normN) :
+    (x0 = none ∧ e0 = none) ∨ ∃ x fx mx, x0 = some x ∧ x.isTerm = true ∧ e0 = some (.term s fx mx x.val) ∧ fx.dflt = x.flags.dflt := by
+  cases x0 with
+  | none =>
+    cases e0 with
+    | none => exact Or.inl ⟨rfl, rfl⟩
+    | some _ => simp at he0
+  | some x =>
+    cases e0 with
+    | none => simp at he0
+    | some x' =>
+      simp only [Option.map_some, Option.some.injEq] at he0
+      obtain ⟨hgx1, hxs⟩ := hgx x rfl
+      have hxt : x.isTerm = true := by rw [(goodN_dom hgx1).typed, hxs]; exact hS
+      obtain ⟨fx', mx, h1, h2⟩ := norm_term_form hxt he0
+      rw [hxs] at h1
+      exact Or.inr ⟨x, fx', mx, rfl, hxt, by rw [h1], h2⟩
+
+/-- what the second node is exact for, when the first one leaves an instance -/
+theorem y_of_tEff {s : Nat} {f : Flags} {mt : List Meta} {v : Bytes} {y0 : Option DNode} {cop : Op}
+    (hy : y0.map normN = tEff (.term s f mt v) cop) (hc : cop ≠ .delete) :
+    ∃ y, y0 = some y ∧ y.isTerm = true ∧ y.val = v ∧ y.flags.dflt = f.dflt := by
+  simp only [tEff, hc, if_false] at hy
+  cases y0 with
+  | none => simp at hy
+  | some y =>
+    simp only [Option.map_some, Option.some.injEq, normN] at hy
+    obtain ⟨h1, _, h3, h4⟩ := normN_term_val hy
+    exact ⟨y, rfl, h1, h3, h4⟩
+
+theorem kind_of_isTerm {S : Schema} {s : Nat} (h : S.isTerm s = true) : S.isKind s .leaf = true ∨ S.isKind s .leaflist = true := by
+  simpa [Schema.isTerm] using h
+
+theorem term_cellEq {S : Schema} {o : MergeOpts}
+    (hq : o.defaults = true → Generated.Diff13.mergeDfltNeedsDeletedDflt = true)
+    {cur sin : Option Op} {s : Nat} {f f2 : Flags} {mt ms : List Meta} {v v2 : Bytes} {x0 y0 : Option DNode} {cop sop : Op}
+    (htex : exactE S P cur x0 (.term s f mt v) = true) (hlt : litMeta mt = true) (hot : ownOp (.term s f mt v) = some cop)
+    (hsex : exactE S P sin y0 (.term s f2 ms v2) = true) (hls : litMeta ms = true) (hos : ownOp (.term s f2 ms v2) = some sop)
+    (hgx : ∀ x, x0 = some x → goodN S P x = true ∧ x.sid = s)
+    (hy : y0.map normN = tEff (.term s f mt v) cop)
+    (hnd : cop = .none → sop = .replace → f2.dflt = false) (hvv : S.isKind s .leaflist = true → v2 = v) :
+    ∀ e0 : Option DNode, e0.map normN = x0.map normN →
+      cellEff S o sop (.term s f mt v) cop (.term s f2 ms v2) e0 = seqEff S (.term s f mt v) (.term s f2 ms v2) e0 := by
+  intro e0 he0
+  obtain ⟨hd, _, _⟩ := exactE_base htex
+  have h1 : S.isUserOrd s = false := hd.nuo
+  have h2 : S.isDupInst s = false := hd.ndi
+  have hS : S.isTerm s = true := by have := hd.typed; simpa [DNode.isTerm, DNode.sid] using this.symm
+  have hopt : effOp (.term s f mt v) cur = some cop := effOp_own' hot cur
+  have hops : effOp (.term s f2 ms v2) sin = some sop := effOp_own' hos sin
+  have hforms := e0_forms hS hgx he0
+  have hft := form_of_lit hlt hot
+  have hfs := form_of_lit hls hos
+  cases cop with
+  | create =>
+    obtain ⟨rfl, _⟩ := exactE_create htex hopt
+    simp only at hft
+    subst hft
+    have he0n : e0 = none := by
+      rcases hforms with ⟨_, h⟩ | ⟨x, _, _, hx, _⟩
+      · exact h
+      · cases hx
+    subst he0n
+    obtain ⟨y, rfl, hyt, hyv, hyd⟩ := y_of_tEff hy (by decide)
+    cases sop with
+    | create => obtain ⟨h, _⟩ := exactE_create hsex hops; cases h
+    | delete =>
+      simp only at hfs
+      subst hfs
+      obtain ⟨x, hx, hdq, _⟩ := exactE_delete hsex hops
+      cases hx
+      have hn := (dataEq_iff_norm _ _).mp hdq
+      obtain ⟨_, _, hv', hd'⟩ := normN_term_val (x := y) (by rw [hn]; rfl)
+      have hvv : v2 = v := by rw [← hv', hyv]
+      subst hvv
+      have hff : f2.dflt = f.dflt := by rw [← hd', hyd]
+      rcases kind_of_isTerm hS with hk | hk
+      · exact (merge_cell_create_delete (o := o) hk f f2 v2 hff).1
+      · exact merge_cell_ll_create_delete (o := o) hk h1 h2 f f2 v2 hff
+    | replace =>
+      obtain ⟨_, x, hx, hleaf, hov, hod, hvne⟩ := exactE_replace hsex hops
+      cases hx
+      simp only at hfs
+      obtain ⟨d, ov, rfl⟩ := hfs
+      simp [getMeta, DNode.metas] at hov hod
+      subst hov hod
+      rw [hyv, hyd]
+      exact merge_cell_create_replace (o := o) hleaf f f2 v v2 (by rw [← hyv]; exact hvne)
+    | none =>
+      obtain ⟨x, hx, hxv, hod⟩ := exactE_none_term hsex hops rfl
+      cases hx
+      simp only at hfs
+      obtain ⟨d, rfl⟩ := hfs
+      simp [getMeta, DNode.metas] at hod
+      subst hod
+      have hvv : v2 = v := by rw [← hyv]; exact hxv.symm
+      subst hvv
+      rw [hyd]
+      rcases kind_of_isTerm hS with hk | hk
+      · exact merge_cell_create_none (o := o) hk f f2 v2
+      · exact merge_cell_ll_create_none (o := o) hk h1 h2 f f2 v2
+  | delete =>
+    obtain ⟨x, rfl, hdq, _⟩ := exactE_delete htex hopt
+    simp only at hft
+    subst hft
+    have hn := (dataEq_iff_norm _ _).mp hdq
+    obtain ⟨_, _, hxv, hxd⟩ := normN_term_val (x := x) (by rw [hn]; rfl)
+    have he0f : ∃ fx mx, e0 = some (.term s fx mx v) ∧ fx.dflt = f.dflt := by
+      rcases hforms with ⟨h, _⟩ | ⟨x', fx, mx, hx, _, h, hfx⟩
+      · cases h
+      · cases hx
+        exact ⟨fx, mx, by rw [h, hxv], by rw [hfx, hxd]⟩
+    obtain ⟨fx, mx, rfl, hfx⟩ := he0f
+    have hy0 : y0 = none := by
+      simp only [tEff, if_true] at hy
+      cases y0 with
+      | none => rfl
+      | some _ => simp at hy
+    subst hy0
+    cases sop with
+    | create =>
+      simp only at hfs
+      subst hfs
+      rcases kind_of_isTerm hS with hk | hk
+      · exact merge_cell_delete_create (o := o) hk f f2 fx mx v v2 hfx hq
+      · have := hvv hk
+        subst this
+        exact merge_cell_ll_delete_create (o := o) hk h1 h2 f f2 fx mx v2 hfx
+    | delete => obtain ⟨x, h, _⟩ := exactE_delete hsex hops; cases h
+    | replace => obtain ⟨_, x, h, _⟩ := exactE_replace hsex hops; cases h
+    | none => obtain ⟨x, h, _⟩ := exactE_none_term hsex hops rfl; cases h
+  | replace =>
+    obtain ⟨_, x, rfl, hleaf, hov, hod, hvne⟩ := exactE_replace htex hopt
+    simp only at hft
+    obtain ⟨d, ov, rfl⟩ := hft
+    simp [getMeta, DNode.metas] at hov hod
+    subst hov hod
+    have he0f : ∃ fx mx, e0 = some (.term s fx mx x.val) ∧ fx.dflt = x.flags.dflt := by
+      rcases hforms with ⟨h, _⟩ | ⟨x', fx, mx, hx, _, h, hfx⟩
+      · cases h
+      · cases hx
+        exact ⟨fx, mx, h, hfx⟩
+    obtain ⟨fx, mx, rfl, hfx⟩ := he0f
+    rw [← hfx]
+    obtain ⟨y, rfl, hyt, hyv, hyd⟩ := y_of_tEff hy (by decide)
+    cases sop with
+    | create => obtain ⟨h, _⟩ := exactE_create hsex hops; cases h
+    | replace =>
+      obtain ⟨_, y', hy', _, hov2, hod2, hvne2⟩ := exactE_replace hsex hops
+      cases hy'
+      simp only at hfs
+      obtain ⟨d2, ov2, rfl⟩ := hfs
+      simp [getMeta, DNode.metas] at hov2 hod2
+      subst hov2 hod2
+      rw [hyv, hyd]
+      exact merge_cell_replace_replace (o := o) hleaf f f2 fx mx v v2 x.val hvne (by rw [← hyv]; exact hvne2)
+    | delete =>
+      simp only at hfs
+      subst hfs
+      obtain ⟨y', hy', hdq, _⟩ := exactE_delete hsex hops
+      cases hy'
+      have hn := (dataEq_iff_norm _ _).mp hdq
+      obtain ⟨_, _, hv', _⟩ := normN_term_val (x := y) (by rw [hn]; rfl)
+      have hvv2 : v2 = v := by rw [← hv', hyv]
+      subst hvv2
+      exact merge_cell_replace_delete (o := o) hleaf f f2 fx mx v2 x.val hvne
+    | none =>
+      obtain ⟨y', hy', hxv, hod2⟩ := exactE_none_term hsex hops rfl
+      cases hy'
+      simp only at hfs
+      obtain ⟨d2, rfl⟩ := hfs
+      simp [getMeta, DNode.metas] at hod2
+      subst hod2
+      have hvv2 : v2 = v := by rw [← hyv]; exact hxv.symm
+      subst hvv2
+      rw [hyd]
+      exact merge_cell_replace_none (o := o) hleaf f f2 fx mx v2 x.val hvne
+  | none =>
+    obtain ⟨x, rfl, hxv, hod⟩ := exactE_none_term htex hopt rfl
+    simp only at hft
+    obtain ⟨d, rfl⟩ := hft
+    simp [getMeta, DNode.metas] at hod
+    subst hod
+    have hxv : x.val = v := hxv
+    have he0f : ∃ fx mx, e0 = some (.term s fx mx v) ∧ fx.dflt = x.flags.dflt := by
+      rcases hforms with ⟨h, _⟩ | ⟨x', fx, mx, hx, _, h, hfx⟩
+      · cases h
+      · cases hx
+        exact ⟨fx, mx, by rw [h, hxv], hfx⟩
+    obtain ⟨fx, mx, rfl, hfx⟩ := he0f
+    rw [← hfx]
+    obtain ⟨y, rfl, hyt, hyv, hyd⟩ := y_of_tEff hy (by decide)
+    cases sop with
+    | create => obtain ⟨h, _⟩ := exactE_create hsex hops; cases h
+    | replace =>
+      obtain ⟨_, y', hy', hleaf, hov2, hod2, hvne2⟩ := exactE_replace hsex hops
+      cases hy'
+      simp only at hfs
+      obtain ⟨d2, ov2, rfl⟩ := hfs
+      simp [getMeta, DNode.metas] at hov2 hod2
+      subst hov2 hod2
+      rw [hyv, hyd]
+      exact merge_cell_none_replace (o := o) hleaf f f2 fx mx v v2 (by rw [← hyv]; exact hvne2) (hnd rfl rfl)
+    | delete =>
+      simp only at hfs
+      subst hfs
+      obtain ⟨y', hy', hdq, _⟩ := exactE_delete hsex hops
+      cases hy'
+      have hn := (dataEq_iff_norm _ _).mp hdq
+      obtain ⟨_, _, hv', _⟩ := normN_term_val (x := y) (by rw [hn]; rfl)
+      have hvv2 : v2 = v := by rw [← hv', hyv]
+      subst hvv2
+      rcases kind_of_isTerm hS with hk | hk
+      · exact merge_cell_none_delete (o := o) hk f f2 fx mx v2
+      · exact merge_cell_ll_none_delete (o := o) hk h1 h2 f f2 fx mx v2
+    | none =>
+      obtain ⟨y', hy', hxv2, hod2⟩ := exactE_none_term hsex hops rfl
+      cases hy'
+      simp only at hfs
+      obtain ⟨d2, rfl⟩ := hfs
+      simp [getMeta, DNode.metas] at hod2
+      subst hod2
+      have hvv2 : v2 = v := by rw [← hyv]; exact hxv2.symm
+      subst hvv2
+      rw [hyd]
+      rcases kind_of_isTerm hS with hk | hk
+      · exact merge_cell_none_none (o := o) hk f f2 fx mx v2
+      · exact merge_cell_ll_none_none (o := o) hk h1 h2 f f2 fx mx v2
+
+end dispatch
+
+theorem safeK_mem {S : Schema} {cur sin : Option Op} {T : List DNode} : ∀ {cs : List DNode}, safeK S cur sin T cs = true →
+    ∀ c ∈ cs, ∀ t ∈ T, matchP S c t = true → safeP S cur sin t c = true
+  | [], _, c, hc, _, _, _ => by simp at hc
+  | c0 :: cs, h, c, hc, t, ht, hm => by
+    simp only [safeK, Bool.and_eq_true, List.all_eq_true, Bool.or_eq_true, Bool.not_eq_eq_eq_not, Bool.not_true] at h
+    rcases List.mem_cons.mp hc with rfl | hc
+    · rcases h.1 t ht with h1 | h1
+      · rw [hm] at h1; cases h1
+      · exact h1
+    · exact safeK_mem h.2 c hc t ht hm
+
+/-- inherited operation at a level where the nodes of an exact literal diff have operations of their own -/
+def InhOK (inh : Option Op) : Prop := inh = none ∨ inh = some .none
+
+/-- **the cell for two leaf / leaf-list nodes that meet**: `t` — exact for the instance `x0` of the first tree, literal metadata —
+met by `src` — exact for what `t` leaves, literal metadata.  The node of the cell is dropped and the instance is as before, or it
+is kept and acts on the instance like `t` followed by `src`. -/
+theorem term_cell {S : Schema} (K : KeyOrderOn S P) {o : MergeOpts}
+    (hq : o.defaults = true → Generated.Diff13.mergeDfltNeedsDeletedDflt = true) {cur sin : Option Op} (hcur : InhOK cur)
+    (hsin : InhOK sin) {t src : DNode} {x0 y0 : Option DNode} (htt : t.isTerm = true) (hst : src.isTerm = true)
+    (hm : matchP S src t = true) (htex : exactE S P cur x0 t = true) (hlt : litN t = true)
+    (hsex : exactE S P sin y0 src = true) (hls : litN src = true)
+    (hgx : ∀ x, x0 = some x → goodN S P x = true ∧ x.sid = t.sid) (hgy : ∀ y, y0 = some y → goodN S P y = true ∧ y.sid = src.sid)
+    {cop sop : Op} (hcop : effOp t cur = some cop) (hsop : effOp src sin = some sop) (hy : y0.map normN = tEff t cop)
+    (hsafe : safeP S cur sin t src = true) :
+    ∃ m, mergeCell S o sop t cop src = .ok (m, false) ∧ Dom S P m ∧ m.isTerm = true ∧ m.sid = t.sid ∧
+      (∀ x, matchP S m x = matchP S t x) ∧ (∃ op, ownOp m = some op) ∧
+      (((isRedundant S none m).2 = true ∧ tEff src sop = x0.map normN) ∨
+        ((isRedundant S none m).2 = false ∧ Acts S P fx cur m (x0.map normN) (tEff src sop))) := by
+  obtain ⟨htd, _, htk⟩ := exactE_base htex
+  obtain ⟨hsd, _, _⟩ := exactE_base hsex
+  have hss : t.sid = src.sid := matchP_sid hm
+  obtain ⟨cop', hot⟩ := own_of_exact_lit hcur htt htex hlt
+  obtain ⟨sop', hos⟩ := own_of_exact_lit hsin hst hsex hls
+  have hc1 : cop' = cop := by have := effOp_own' hot cur; rw [hcop] at this; exact (Option.some.inj this).symm
+  have hc2 : sop' = sop := by have := effOp_own' hos sin; rw [hsop] at this; exact (Option.some.inj this).symm
+  subst hc1 hc2
+  have hS : S.isTerm t.sid = true := by rw [← htd.typed]; exact htt
+  have hkv : S.isKind t.sid .leaf = true ∨ (sop' ≠ .replace ∧ cop' ≠ .replace) := by
+    rcases kind_of_isTerm hS with hk | hk
+    · exact Or.inl hk
+    · refine Or.inr ⟨?_, ?_⟩
+      · rintro rfl
+        obtain ⟨_, _, _, hl, _⟩ := exactE_replace hsex hsop
+        rw [← hss] at hl
+        have h1 := isKind_iff.mp hl
+        have h2 := isKind_iff.mp hk
+        rw [h1] at h2; cases h2
+      · rintro rfl
+        obtain ⟨_, _, _, hl, _⟩ := exactE_replace htex hcop
+        have h1 := isKind_iff.mp hl
+        have h2 := isKind_iff.mp hk
+        rw [h1] at h2; cases h2
+  -- the two nodes one after the other
+  have hseq : ∀ e0 : Option DNode, e0.map normN = x0.map normN → seqEff S t src e0 = some (tEff src sop') := by
+    intro e0 he0
+    obtain ⟨e1, h1, h2⟩ := termEff_exact htt htex hcop hgx he0
+    obtain ⟨e2, h3, h4⟩ := termEff_exact (e0 := e1) hst hsex hsop hgy (by rw [h2, hy])
+    unfold seqEff
+    rw [termEff_own hot none cur, h1]
+    simp only [Option.bind_some]
+    rw [termEff_own hos none sin, h3]
+    simp [h4]
+  -- the cell
+  have hcell : ∀ e0 : Option DNode, e0.map normN = x0.map normN → cellEff S o sop' t cop' src e0 = some (tEff src sop') := by
+    intro e0 he0
+    rw [← hseq e0 he0]
+    cases t with
+    | inner => simp [DNode.isTerm] at htt
+    | term s f mt v =>
+      cases src with
+      | inner => simp [DNode.isTerm] at hst
+      | term s' f2 ms v2 =>
+        simp only [DNode.sid] at hss
+        subst hss
+        refine term_cellEq hq htex hlt hot hsex hls hos hgx hy ?_ ?_ e0 he0
+        · rintro rfl rfl
+          simp only [safeP, hcop, hsop, beq_self_eq_true, Bool.and_true, Bool.true_and, Bool.and_eq_true,
+            Bool.not_eq_eq_eq_not, Bool.not_true] at hsafe
+          exact hsafe.2
+        · intro hk
+          have h2 : S.isDupInst s = false := htd.ndi
+          have h1 := isKind_iff.mp hk
+          simp [matchP, isLL, instMatch, sameInst, h2, hk, h1, DNode.sid, DNode.val] at hm
+          exact hm.symm
+  exact cell_concl (fx := fx) K x0 rfl htd htt htk hss.symm hkv hcell
 
 end LyModel.Diff.K13
